@@ -335,16 +335,25 @@ def run(ctx: Any, prog: Program) -> None:
             ctx.check('C03.K1', not re_, tk, tk.parents.get(re_[0]) if re_ else init_fn, f'__init__ rewrites its `{dparam}` argument (`{U(tk.parents.get(re_[0]))[:70] if re_ else ""}`) before handing it to the cursor: what the token '
                       'functions see then depends on whether the text came as one str or as chunks', text='__init__: data not rewritten')
             for n in ast.walk(init_fn):
+                def alts(v0: ast.AST) -> List[ast.AST]:
+                    return alts(v0.body) + alts(v0.orelse) if isinstance(v0, ast.IfExp) else [v0]
                 if isinstance(n, ast.Assign) and any(dotted(t) == 'self._cur_chunk' for t in n.targets):
-                    ok = (isinstance(n.value, ast.Name) and n.value.id == dparam) or (isinstance(n.value, ast.Constant) and n.value.value == '')
-                    ctx.check('C03.K1', ok, tk, n, f'__init__ starts the cursor on `{U(n.value)[:60]}` instead of the text it was given (or the empty chunk)', text=f'__init__: first chunk `{U(n.value)[:30]}`')
+                    for av in alts(n.value):
+                        plain = (isinstance(av, ast.Name) and av.id == dparam) or (isinstance(av, ast.Constant) and av.value == '')
+                        derived = any(isinstance(x, ast.Name) and x.id == dparam for x in ast.walk(av)) and not plain
+                        if plain:
+                            ctx.check('C03.K1', True, tk, n, '', text=f'__init__: first chunk `{U(av)[:30]}`')
+                        elif derived:
+                            ctx.check('C03.K1', False, tk, n, f'__init__ starts the cursor on `{U(av)[:60]}`, a rewritten form of the text it was given: the same text arriving in chunks is not rewritten', text=f'__init__: first chunk `{U(av)[:30]}`')
+                        else:
+                            ctx.shape('C03.K1', False, tk, n, f'first chunk `{U(av)[:60]}` is neither the data nor the empty chunk', text=f'__init__: first chunk `{U(av)[:30]}`')
                 if isinstance(n, ast.Assign) and any(dotted(t) == 'self._chunk_iter' for t in n.targets):
-                    v_ = n.value
-                    ok = isinstance(v_, ast.Call) and dotted(v_.func) == 'iter' and len(v_.args) == 1 and ((isinstance(v_.args[0], ast.Name) and v_.args[0].id == dparam) or (isinstance(v_.args[0], ast.Tuple) and not v_.args[0].elts))
-                    if ok:
-                        ctx.check('C03.K1', True, tk, n, '', text=f'__init__: chunk source `{U(v_)[:30]}`')
-                    else:
-                        ctx.shape('C03.K1', False, tk, n, f'chunk source `{U(v_)[:60]}` is not iter(<data>) / iter(())', text=f'__init__: chunk source `{U(v_)[:30]}`')
+                    for v_ in alts(n.value):
+                        ok = isinstance(v_, ast.Call) and dotted(v_.func) == 'iter' and len(v_.args) == 1 and ((isinstance(v_.args[0], ast.Name) and v_.args[0].id == dparam) or (isinstance(v_.args[0], ast.Tuple) and not v_.args[0].elts))
+                        if ok:
+                            ctx.check('C03.K1', True, tk, n, '', text=f'__init__: chunk source `{U(v_)[:30]}`')
+                        else:
+                            ctx.shape('C03.K1', False, tk, n, f'chunk source `{U(v_)[:60]}` is not iter(<data>) / iter(())', text=f'__init__: chunk source `{U(v_)[:30]}`')
 
     # ---- K9: acyclic call graph among the tokenizer's own methods -------------------------------------------
     graph: Dict[str, Set[str]] = {}
